@@ -191,6 +191,9 @@ def walk_property(run):
                 "snapshots (paths and bytes) of the sandbox and captured stdout; compared: created/changed/deleted paths "
                 "against the output directory, and stdout against the concatenation of the written pages")
     walkh.replay(run, pid, res.lines.get("BEH", []), run.seed, limit=6000 if q else 60000)
+    # binding B: recorded walks over random trees (deeper, more names and patterns than the menus), validated by TLC
+    import walktrace
+    walktrace.run(run, pid, run.seed, 160 if q else 3000)
     run.assumptions += ["pathspec (gitwildmatch) is a trusted library; the specification's reading of it (Walk.Match) is "
                         "checked against observed match_file results by the C15 check",
                         "str.endswith/lower/split/sorted results on names are inputs of the specification",
